@@ -119,3 +119,25 @@ theorem devWriteRaw_sector (c : Cfg) (vol : Option Nat) (p size : Nat) (b : Byte
         simp [this]
 
 end Adf
+
+namespace Adf
+/-! simp set for symbolic execution of `Prog`s -/
+@[simp] theorem run_pure' {α : Type} (c : Cfg) (a : α) (s : St) : run c (pure a : Prog α) s = (.ok a, s) := rfl
+@[simp] theorem run_bind' {α β : Type} (c : Cfg) (p : Prog β) (k : β → Prog α) (s : St) :
+    run c (p >>= k) s = (match run c p s with
+      | (.ok b, s') => run c (k b) s'
+      | (.fault f, s') => (.fault f, s')) := by
+  show run c (Prog.bind p k) s = _
+  rw [run]
+  rcases run c p s with ⟨r, s'⟩
+  cases r <;> rfl
+@[simp] theorem run_getCfg (c : Cfg) (s : St) : run c getCfg s = (.ok c, s) := rfl
+@[simp] theorem run_getMem (c : Cfg) (s : St) : run c getMem s = (.ok s.mem, s) := rfl
+@[simp] theorem run_setMem (c : Cfg) (m : Mem) (s : St) : run c (setMem m) s = (.ok (), { s with mem := m }) := rfl
+@[simp] theorem run_now (c : Cfg) (s : St) : run c now s = (.ok s.clock, s) := rfl
+@[simp] theorem run_fault {α : Type} (c : Cfg) (f : Fault) (s : St) : run c (fault f : Prog α) s = (.fault f, s) := rfl
+@[simp] theorem run_getVolCfg (c : Cfg) (v : Nat) (s : St) : run c (getVolCfg v) s = (.ok (c.vol v), s) := rfl
+@[simp] theorem run_getVolMem (c : Cfg) (v : Nat) (s : St) : run c (getVolMem v) s = (.ok (s.mem.vol v), s) := rfl
+@[simp] theorem run_setVolMem (c : Cfg) (v : Nat) (x : VolMem) (s : St) :
+    run c (setVolMem v x) s = (.ok (), { s with mem := s.mem.setVol v x }) := rfl
+end Adf
